@@ -68,12 +68,14 @@ CHECKS = {
             {"pkg": "v2", "entries": ["VerifC10Own"], "params": {"N": 3, "M": 2, "FAMS": 1}},
             {"pkg": "v2", "entries": ["VerifC10Own"], "params": {"N": 2, "M": 3, "FAMS": 1}},
             {"pkg": "v2", "entries": ["VerifC10Ops"], "params": {"OPS": 3, "N": 2, "MAXIDX": 3}},
+            {"pkg": "v2", "entries": ["VerifC10Ops"], "params": {"OPS": 2, "N": 2, "MAXIDX": 3, "SPELL": 1}},
         ],
         "thorough": [
             {"pkg": "v2", "entries": ["VerifC10Own"], "params": {"N": 3, "FAMS": 1}},
             {"pkg": "v2", "entries": ["VerifC10Own"], "params": {"N": 2, "KEYS": 6}},
             {"pkg": "v2", "entries": ["VerifC10Ops"], "params": {"OPS": 4, "N": 2, "MAXIDX": 3}},
             {"pkg": "v2", "entries": ["VerifC10Ops"], "params": {"OPS": 5, "N": 1, "MAXIDX": 1, "WRAPS": 1}},
+            {"pkg": "v2", "entries": ["VerifC10Ops"], "params": {"OPS": 3, "N": 2, "MAXIDX": 3, "SPELL": 1}},
         ],
         "covers": ["c10.own", "c10.ops.applied", "c10.ops.rejected"],
         "outside": "more than OPS operations; indices above MAXIDX; operations on object members and nested paths in the op-sequence leg (own-output leg covers keys a/b, m~n, empty, e-acute); replace/move/copy (outside jd's subset: rejected by the reader)",
